@@ -176,6 +176,7 @@ TAGS = {
     "#00ff00": ("K_hex", ["#00ff00"], _sp(color="#00ff00")),
     "link=https://a.example/x": ("K_link", ["link"], _sp(link="https://a.example/x")),
     "link=https://b.example": ("K_link", ["link"], _sp(link="https://b.example")),
+    "link=https://c.example/s?q=1&p=2#top": ("K_link", ["link"], _sp(link="https://c.example/s?q=1&p=2#top")),
     "foo": ("K_foo", ["foo"], None),
     "underline blue": ("K_ublue", ["underline blue", "blue underline", "u blue"], _sp({"underline": True}, color="blue")),
 }
